@@ -73,5 +73,52 @@ add(property='C04', id='C04-invariant-sign', status='open', clause='invariant',
                                                         'returned rays with signed indices is still required constant',
     reproducer={'kind': 'spec', 'spec': spec([surf(R=-100.0, t=-40.0, mat=MIRROR, stop=True)], ap=('EPD', 10.0))})
 
-json.dump({'findings': F}, open(os.path.join(HERE, 'known_findings.json'), 'w'), indent=1)
-print(len(F), 'findings written')
+cheb = surf(type='chebyshev', R=60.0, t=5.0, mat=glass(1.5), stop=True, coef=[[0.0, 0.02], [0.01, 0.0]], norm=20.0)
+add(property='C02', id='C02-missing-k', status='fixed', commit='0752c0c', clause='no_exception',
+    what='fixed: property=C02 0752c0c tracing through a catalogue material without extinction data raised ValueError '
+         '(bundled TelescopeObjective48Inch could not be traced)',
+    reproducer={'kind': 'sample', 'name': 'objectives.TelescopeObjective48Inch'})
+add(property='C02', id='C02-chebyshev-normal', status='open', clause='snell_law',
+    what='ChebyshevPolynomialGeometry._surface_normal omits the chain-rule factor 1/norm_x, 1/norm_y: for norm != 1 the '
+         'normal is not the gradient of the prescribed sag and refracted/reflected directions violate Snell\'s law '
+         '(error ~ c_ij (1 - 1/norm)); tests/test_geometries.py::TestChebyshevGeometry::test_surface_normal pins the '
+         'wrong normal, so it is recorded, not repaired',
+    region='Chebyshev surface with norm_x/norm_y != 1',
+    weakened_relation='Snell / reflection law hold with the gradient whose Chebyshev terms lack the 1/norm factor',
+    reproducer={'kind': 'spec', 'spec': spec([cheb, surf(R=-80.0, t=40.0)], ap=('EPD', 8.0), fields=(0.0, 3.0)),
+                'rays': [[0.0, 0.0, 0.0], [0.5, 0.3, 0.4], [1.0, -0.5, 0.5], [0.0, 0.0, 1.0]], 'wl': 0})
+
+add(property='C02', id='C02-backward-launch', status='fixed', commit='7f84765', clause='on_surface',
+    what='fixed: property=C02 7f84765 rays were launched towards -z when the entrance pupil lies in front of the launch '
+         'plane (virtual pupil), giving finite records that are not on the surfaces',
+    reproducer={'kind': 'spec', 'spec': spec([surf(R=50.0, t=6.0, mat=glass(1.5)), surf(R=-50.0, t=80.0),
+                                             surf(R='inf', t=30.0, stop=True)], ap=('EPD', 6.0), fields=(0.0, 2.0)),
+                'rays': [[0.0, 0.0, 0.0], [0.5, 0.3, 0.4], [1.0, -0.5, 0.5], [0.0, 0.0, 1.0]], 'wl': 0})
+
+add(property='C02', id='C02-far-sheet', status='fixed', commit='af57352', clause='on_surface',
+    what='fixed: property=C02 af57352 a ray whose only forward root is on the far sheet of the conic (beyond the equator) '
+         'was reported finite, off the sag surface and with a wrong-signed normal',
+    reproducer={'kind': 'spec', 'spec': spec([surf(R=1.1875, t=-0.14621044856056414, mat=MIRROR, stop=True),
+                                             surf(R=2.186198843866468, t=0.546549710966617, mat=MIRROR)], t_obj=7.0,
+                                            ap=('EPD', 2.0), fields=(0.0,)),
+                'rays': [[0.0, 0.0, 0.0], [0.0, 1.0, 0.0], [0.0, 0.0, 1.0], [0.0, 0.7, 0.7]], 'wl': 0})
+
+add(property='C02', id='C02-nr-nonconvergence', status='fixed', commit='e33a24d', clause='on_surface',
+    what='fixed: property=C02 e33a24d rays whose Newton-Raphson surface iteration did not converge within max_iter were '
+         'returned as finite points off the surface (even asphere R=10 tilted 0.9 rad, ray at y=-6.3: 0.09 mm off)',
+    reproducer={'kind': 'spec', 'spec': spec([surf(type='even_asphere', R=10.0, t=3.0, mat=glass(1.5), stop=True,
+                                                  coef=[0.0, 1e-5], rx=0.9), surf(R='inf', t=20.0)],
+                                            ap=('EPD', 14.0), fields=(0.0,)),
+                'rays': [[0.0, 0.0, 0.0], [0.0, 0.0, 0.5], [0.0, 0.0, -0.8], [0.0, 0.0, -0.9], [0.0, 0.0, 0.9]], 'wl': 0})
+
+add(property='C02', id='C02-nr-behind', status='fixed', commit='5bdc6b3', clause='on_surface',
+    what='fixed: property=C02 5bdc6b3 iterative surfaces advanced a ray forwards by |t| when the converged intersection '
+         'lies behind the ray origin (tilted plane poking through the following asphere): finite point 2.7e-3 off the surface',
+    reproducer={'kind': 'spec', 'spec': spec([surf(R='inf', t=0.05, mat=glass(1.5), stop=True, rx=0.09375),
+                                             surf(type='even_asphere', R=18.01047303895693, t=0.5, coef=[])],
+                                            ap=('EPD', 2.0), fields=(0.0,)),
+                'rays': [[0.0, 0.0, 0.0], [0.0, 0.5403023058681398, 0.8414709848078965], [0.0, 0.0, 1.0]], 'wl': 0})
+
+if __name__ == '__main__':
+    json.dump({'findings': F}, open(os.path.join(HERE, 'known_findings.json'), 'w'), indent=1)
+    print(len(F), 'findings written')
